@@ -133,6 +133,9 @@ def jobs(tier, seed=0):
     # the two building blocks on their own (Arbiter = n x 1 without decoder, Decoder = 1 x m without arbiter)
     A(lambda: make_arbiter(3, alphabet=_alpha(3, 1, 1)), 2000)
     A(lambda: make_arbiter(2, alphabet=_alpha(2, 1, 2)), 3000)
+    A(lambda: make_arbiter(3, controllers=True, alphabet=_alpha(3, 1, 1)), 2000)           # `controllers=` keyword
+    A(lambda: make_shared(2, MAPS[2][0][1], timeout=1, register=True, alphabet=_alpha(2, 2, 1),
+                          name="Shared 2x2 cover reg to=1 a1"), 3000)                       # smallest timeout that waits
     A(lambda: make_decoder(MAPS[3][1][1], register=True, alphabet=_alpha(1, 3, 2)), 4000)
     A(lambda: make_decoder(MAPS[2][0][1], register=False, alphabet=_alpha(1, 2, 2)), 500)
     # masters of different adr_width (narrow first / wide first): the shared bus must carry the widest address
@@ -182,6 +185,22 @@ def jobs(tier, seed=0):
                                       name="Shared %dx3 regions adr_widths=%s reg to=8/32b" % (len(aws), aws)))
     B(lambda: make_xbar(2, wreg, register=False, data_width=32, adr_widths=[20, 30],
                         name="Crossbar 2x3 regions adr_widths=[20, 30]/32b"))
+    # default-argument path (timeout_cycles not passed: 1e6), 128-bit data, 5 masters x 5 slaves
+    dflt = _region_map(rng, 2)
+    B(lambda: make_shared(2, dflt, timeout="default", data_width=32, adr_width=30,
+                          name="Shared 2x2 regions default-timeout/32b [%s]" % " ".join(d.word() for d in dflt)),
+      cycles=None if not quick else 800)
+    d128 = _region_map(rng, 3)
+    B(lambda: make_shared(3, d128, register=True, timeout=4, data_width=128, adr_width=28,
+                          name="Shared 3x3 regions reg to=4/128b [%s]" % " ".join(d.word() for d in d128)),
+      cycles=None if not quick else 800)
+    B(lambda: make_xbar(2, d128, data_width=128, adr_width=28,
+                        name="Crossbar 2x3 regions/128b [%s]" % " ".join(d.word() for d in d128)),
+      cycles=None if not quick else 600)
+    d55 = _region_map(rng, 5)
+    B(lambda: make_shared(5, d55, register=False, timeout=6, data_width=32, adr_width=30,
+                          name="Shared 5x5 regions to=6/32b [%s]" % " ".join(d.word() for d in d55)),
+      cycles=None if not quick else 800)
     # whole-address-space region (decoder returns `lambda a: True`) and a 64-bit fabric
     B(lambda: make_shared(2, [DecRegion(0, 1 << 32)], data_width=32, adr_width=30, name="Shared 2x1 region=all/32b"))
     d64 = _region_map(rng, 2)
@@ -197,7 +216,11 @@ def jobs(tier, seed=0):
            dict(n=1, regions=[(0, 0x2000), (0x80000000, 0x10000)], timeout=8),        # 1x2
            dict(n=2, regions=[(0, 0x1000)], timeout=8),                               # 2x1, origin 0, partial
            dict(n=2, regions=[(0x20000000, 0x800)], interconnect="crossbar"),
-           dict(n=1, regions=[(0x10000000, 0x1000)], timeout=8, extra_first=(0, 0x1000))]    # fixed finding
+           dict(n=1, regions=[(0x10000000, 0x1000)], timeout=8, extra_first=(0, 0x1000)),    # fixed finding
+           # less-used paths of the glue: slaves registered before masters, byte-addressed master ports (add_adapter)
+           dict(n=2, regions=[(0x10000000, 0x1000), (0, 0x2000)], timeout=8, slaves_first=True),
+           dict(n=2, regions=[(0x30000000, 0x1000), (0x80000000, 0x600)], timeout=8, byte_masters=(1,)),
+           dict(n=1, regions=[(0, 1 << 32)], timeout=8, byte_masters=(0,))]
     if not quick:
         soc += [dict(n=2, regions=[(0, 0x1000), (0x10000, 0x600)], interconnect="crossbar", register=False),
                 dict(n=3, regions=_soc_regions(rng, 3), timeout=20),
@@ -417,19 +440,80 @@ def _make_from_spec(spec):
     return make_xbar(spec["n"], decs, **kw)
 
 
+class _TimeLimit(Exception):
+    pass
+
+
+def _alarm(seconds):
+    """(Re)arm a wall-clock limit for the current process: a hang while building or driving a changed implementation
+    (e.g. a combinational loop that never settles) ends as an exception, which is reported as a disagreement."""
+    import signal
+
+    def handler(signum, frame):
+        raise _TimeLimit("time limit of %d s exceeded" % seconds)
+    signal.signal(signal.SIGALRM, handler)
+    signal.setitimer(signal.ITIMER_REAL, seconds)
+
+
+def _disarm():
+    import signal
+    signal.setitimer(signal.ITIMER_REAL, 0)
+
+
+def _guard(what, fn, limit=300):
+    """Run one serial step; an exception or a hang becomes a disagreement record instead of a crash."""
+    import traceback
+    try:
+        _alarm(limit)
+        return fn()
+    except Exception as e:      # noqa: a broken implementation must end as a report
+        return [{"instance": what, "kind": "exception", "what": "%s: %r" % (type(e).__name__, e),
+                 "traceback": traceback.format_exc()[-1500:]}]
+    finally:
+        _disarm()
+
+
+def _limited(job, limit):
+    """Arm the per-instance time limit inside the worker that builds and runs the job."""
+    mk = job.make
+
+    def make():
+        _alarm(limit)
+        return mk()
+    job.make = make
+    return job
+
+
 def correspond(ctx):
     ctx.rule = ("model/implementation correspondence cases; non-trivial = a strobe is presented to a slave or a "
                 "master sees ack/err in that (state, input) pair; counted per distinct pair")
     ctx.jobs = jobs(ctx.tier, ctx.seed)
     dis = []
-    dis += _corpus(ctx, ctx.jobs)
-    dis += _rr_cases(ctx)
-    dis += _region_decoder_cases(ctx)
-    dis += _topology_cases(ctx)
-    dis += _self_test(ctx)
+    dis += _guard("corpus", lambda: _corpus(ctx, ctx.jobs))
+    dis += _guard("migen RoundRobin", lambda: _rr_cases(ctx))
+    dis += _guard("SoCRegion.decoder", lambda: _region_decoder_cases(ctx))
+    dis += _guard("SoCBusHandler.do_finalize topology", lambda: _topology_cases(ctx))
+    dis += _guard("selftest", lambda: _self_test(ctx))
     ctx.log("corpus, RoundRobin table, SoCRegion.decoder cases, self-test done; %d fabric jobs" % len(ctx.jobs))
-    d2, bad = run_jobs(ctx, ctx.jobs)
-    dis += d2
+    limit = 600 if ctx.tier == "quick" else 3000
+    try:
+        d2, bad = run_jobs(ctx, [_limited(j, limit) for j in jobs(ctx.tier, ctx.seed)])
+        dis += d2
+    except Exception as e:
+        # a worker died: building or driving some instance raised (or hung).  Find the instance(s) and report.
+        import traceback
+        ctx.log("fabric jobs aborted: %r" % (e,))
+        found = False
+        for job in jobs(ctx.tier, ctx.seed):
+            r = _guard("instance construction", lambda job=job: (job.make(), [])[1], limit=120)
+            if r:
+                dis += r
+                found = True
+                if len(dis) > 5:
+                    break
+        if not found:
+            dis.append({"instance": "fabric jobs", "kind": "exception", "what": "%s: %r" % (type(e).__name__, e),
+                        "traceback": traceback.format_exc()[-1500:]})
     na = sum(1 for i in ctx.cov.instances if i.get("mode") == "A")
     ctx.log("mode A: %d instances (%d exhaustive), mode B: %d runs" % (
         na, sum(1 for i in ctx.cov.instances if i.get("mode") == "A" and i.get("exhaustive")),
@@ -528,7 +612,10 @@ def search(ctx, disagreements, proof_info):
         for j in order:
             if time.time() > deadline:
                 return None
-            inst = all_jobs[j].make()
+            try:
+                inst = all_jobs[j].make()
+            except Exception:
+                continue            # cannot be built on this tree (already reported as an exception disagreement)
             for d in by_job.get(j, []) if rnd == 0 else []:
                 r = replay_with_monitor(inst, d.trace)
                 if r:
@@ -540,7 +627,13 @@ def search(ctx, disagreements, proof_info):
             for g in gens:
                 if g is not None:
                     inst.env_factory = g
-                r = monitor_run(inst, rng, 600 if j in by_job else 300)
+                try:
+                    _alarm(120)
+                    r = monitor_run(inst, rng, 600 if j in by_job else 300)
+                except Exception:
+                    r = None
+                finally:
+                    _disarm()
                 if r:
                     trace, msg = r
                     trace = shrink(inst, trace)
@@ -560,6 +653,14 @@ def _probe_listed(ctx, fid, still, what, out):
 
 
 def probes(ctx):
+    try:
+        _alarm(300)
+        return _probes(ctx)
+    finally:
+        _disarm()
+
+
+def _probes(ctx):
     out = []
     # 1. Decoder(register=True) returns the previously selected slave's data to a 0-latency ack (documented).
     fails = []
